@@ -5,7 +5,7 @@ wt=$1; id=$2; dst=/verif/seeded/$id
 mkdir -p $dst
 cp $wt/patch.diff $dst/patch.diff
 cd $wt
-for f in $(git status --porcelain | grep '^??' | awk '{print $2}' | grep -v '^patch.diff$' | grep -v 'PROPERTY.txt' | grep -v '^.out'); do
+for f in $(git status --porcelain | grep '^??' | awk '{print $2}' | grep -v '^patch.diff$' | grep -v 'PROPERTY.txt' | grep -v 'ALREADY_TRIED.txt' | grep -v '^.out'); do
   if [ -f "$f" ]; then mkdir -p $dst/demo/$(dirname $f); cp $f $dst/demo/$f; fi
 done
 ls -R $dst | head -20
